@@ -351,7 +351,7 @@ def rule_e(res: Results, idx: Index) -> None:
         first = min(truncs, key=lambda c: c.lineno)
         rejecting = [i for i in walk_no_nested(bind_fn.node) if isinstance(i, ast.If) and i.lineno < first.lineno and any(isinstance(x, ast.Raise) for b in i.body for x in ast.walk(b))
                      and {"lower", "upper"} <= (du.closure(names_in(i.test)) | names_in(i.test))
-                     and any(tok in " ".join([src(i.test, 200)] + [src(d.value, 200) for nm in names_in(i.test) for d in du.defs.get(nm, []) if d.value is not None]) for tok in ("kind", "integer", "issubdtype"))]
+                     and any(tok in " ".join([src(i.test, 200)] + [src(d.value, 200) for nm in names_in(i.test) for d in du.defs.get(nm, []) if d.value is not None]) for tok in ("kind", "integer", "issubdtype", "isinstance", "Integral"))]
         if rejecting:
             res.ok("R-C06e", f"{rel}:{rejecting[0].lineno}", key, f"non-integer bounds are rejected (`{src(rejecting[0].test, 60)}`) before `{src(first, 40)}`", bind_fn.qualname)
         else:
